@@ -379,6 +379,8 @@ struct St {
     m: Matrix<Rat>,
     model: M,
     mc: usize,
+    /// only the shape- and entry-editing actions (no arithmetic, which makes the entries of a larger start matrix outgrow i128)
+    edits_only: bool,
 }
 #[derive(Clone, Debug)]
 enum Act {
@@ -416,9 +418,11 @@ impl Sut for St {
     fn actions(&self) -> Vec<Act> {
         let (rr, cc) = (self.model.len(), self.mc);
         let mut a = vec![];
-        let small = self.model.iter().all(|r| r.iter().all(|v| v.n.abs() < BIG));
+        let small = !self.edits_only && self.model.iter().all(|r| r.iter().all(|v| v.n.abs() < BIG));
         a.push(Act::TransposeIP);
-        a.push(Act::Neg);
+        if !self.edits_only {
+            a.push(Act::Neg);
+        }
         if small {
             a.push(Act::Scale(2));
             a.push(Act::AddScalar(1));
@@ -438,7 +442,8 @@ impl Sut for St {
             a.push(Act::FillCol(j, 8));
             a.push(Act::SetCol(j));
         }
-        for (x, y) in [(0usize, 0usize), (1, 3), (3, 1), (2, 2), (3, 3), (2, 3)] {
+        // (3,2) and (3,4): targets that grow one dimension of a 3-row matrix within the capacity an earlier delete_row / shrinking resize left behind
+        for (x, y) in [(0usize, 0usize), (1, 3), (3, 1), (2, 2), (3, 3), (2, 3), (3, 2), (3, 4)] {
             a.push(Act::Resize(x, y));
         }
         if rr == cc && small {
@@ -616,7 +621,7 @@ impl Sut for St {
 
 fn init(r: usize, c: usize) -> St {
     let md = pat_a(r, c);
-    St { m: model::to_matrix(&md, c), model: md, mc: c }
+    St { m: model::to_matrix(&md, c), model: md, mc: c, edits_only: false }
 }
 
 fn main() {
@@ -736,5 +741,12 @@ fn main() {
         crosscheck_stateright(&ctx, "editing histories", inits, depth);
     }
     explore_replayed(&ctx, "clone-free editing histories on one Matrix<Rat>", vec![init(2, 3), init(3, 2), init(0, 0)], BfsOpts { max_depth: ctx.pick(4, 5), state_cap: 3_000_000 });
+    // storage that delete_row / clear leave behind and a growing resize re-uses: only a history on ONE object sees it (a clone has no
+    // spare capacity), and the re-striding goes wrong only with three rows or more - a 4x3 start, editing actions only (round 15)
+    {
+        let mut big = init(4, 3);
+        big.edits_only = true;
+        explore_replayed(&ctx, "clone-free shape-editing histories on one 4x3 Matrix<Rat>", vec![big], BfsOpts { max_depth: ctx.pick(3, 4), state_cap: 3_000_000 });
+    }
     std::process::exit(ctx.finish());
 }
